@@ -36,6 +36,13 @@ impl OverlayFS {
         if path.is_empty() {
             return Ok(self.layers[0].clone());
         }
+        // An entry in the write layer is always visible, a deletion marker only hides the lower
+        // layers: while an entry is being re-created both exist for a moment, and a concurrent
+        // caller must already see the new entry.
+        let write_path = self.write_path(path)?;
+        if write_path.exists()? {
+            return Ok(write_path);
+        }
         if self.whiteout_path(path)?.exists()? {
             return Err(VfsErrorKind::FileNotFound.into());
         }
@@ -180,6 +187,10 @@ impl FileSystem for OverlayFS {
     }
 
     fn exists(&self, path: &str) -> VfsResult<bool> {
+        // see read_path: the write layer is looked at before the deletion markers
+        if self.write_path(path)?.exists()? {
+            return Ok(true);
+        }
         if self
             .whiteout_path(path)
             .map_err(|err| err.with_context(|| "whiteout_path"))?
